@@ -162,14 +162,18 @@ func runC11(w *World) {
 				return
 			}
 			w.Quiesce()
-			c2 := e.OpenConn(p, DirIn, time.Minute)
-			if ExpectOpen(c2, time.Second) == nil {
-				w.Violate("C11/resume-dialling/inbound-not-admitted", "after an inbound session ended (%s) a new inbound connection was not admitted (closed=%v, %d bytes)", kinds[kind], c2.LocalClosed(), c2.OutLen())
-				return
+			if w.Draw(2, "probeinbound") == 0 {
+				c2 := e.OpenConn(p, DirIn, time.Minute)
+				if ExpectOpen(c2, time.Second) == nil {
+					w.Violate("C11/resume-dialling/inbound-not-admitted", "after an inbound session ended (%s) a new inbound connection was not admitted (closed=%v, %d bytes)", kinds[kind], c2.LocalClosed(), c2.OutLen())
+					return
+				}
+				w.Probe("inbound-session-resume")
+				c2.FIN()
+				w.Quiesce()
+			} else {
+				w.Probe("inbound-session-then-outbound-only")
 			}
-			w.Probe("inbound-session-resume")
-			c2.FIN()
-			w.Quiesce()
 			for _, d := range p.Site.DialList() {
 				d.Taken = true
 			}
